@@ -16,6 +16,13 @@ package main
 //                        (SetWorkbookProps Date1904), pre = style already on the cell (0 none, 1 bold,
 //                        2 custom number format + bold, 3 built-in format 14 + bold), SetCellValue(time);
 //                        result: bits=<float64 bits of the raw value|text> fmt=<NumFmt> custom=<0|1> bold=<0|1>
+//   rend <sys> <y> <m> <d> <h> <mi> <s> <off> <zone> <bits15>
+//                        SetCellValue(time) on a fresh workbook, then GetCellValue under the default style the
+//                        library chose (built-in 14 / 17 / 22) and under yyyy-mm-dd hh:mm:ss; <bits15> is the
+//                        float64 the reader renders (the stored text cut to 15 significant digits);
+//                        result: enc=<bits of the raw value> e15=<|x15-x| <= 5e-15 x> fmt=<id> toks=<nfp tokens of
+//                        the built-in format> out=<hex rendered> iso=<hex rendered>
+//                        (model: C19 encoder + glue, then C10's dateTimeHandler on C19's decoder)
 //   dur <ns> <bits>      SetCellValue(time.Duration): raw value (float32-formatted) and style;
 //                        result: e=<within 2^-23 relative> k=<nearest second|-> fmt=<NumFmt>
 //   edt <sys> <bits>     ExcelDateToTime (exported, with the negative guard) on an arbitrary float64
@@ -44,6 +51,7 @@ import (
 	"time"
 
 	xl "github.com/xuri/excelize/v2"
+	"github.com/xuri/nfp"
 )
 
 func init() { props["C19"] = runC19 }
@@ -549,6 +557,81 @@ func c19cell(r *Run, wb string, pre int, t time.Time, zone string) {
 	r.Op(op, res)
 	r.Case(op, true)
 	r.Stat("cell:wb=" + wb + ":pre=" + strconv.Itoa(pre))
+}
+
+var c19builtin = map[int]string{14: "mm-dd-yy", 17: "mmm-yy", 22: "m/d/yy hh:mm"}
+
+func c19toks(code string) string {
+	ps := nfp.NumberFormatParser()
+	secs := ps.Parse(code)
+	if len(secs) == 0 {
+		return "-"
+	}
+	var parts []string
+	for _, it := range secs[0].Items {
+		parts = append(parts, it.TType+":"+hx(it.TValue))
+	}
+	return strings.Join(parts, ",")
+}
+
+// c19rend: from SetCellValue(time) to the rendered text, through the public API only.
+func c19rend(r *Run, sys bool, t time.Time, zone string) {
+	y, mo, d := t.Date()
+	h, mi, s := t.Clock()
+	_, off := t.Zone()
+	head := fmt.Sprintf("rend %s %d %d %d %d %d %d %d %s", c19sysS(sys), y, int(mo), d, h, mi, s, off, zone)
+	bits15, res := "-", "PANIC"
+	var shown, iso string
+	func() {
+		defer func() { _ = recover() }()
+		f := xl.NewFile()
+		defer f.Close()
+		if sys {
+			yes := true
+			_ = f.SetWorkbookProps(&xl.WorkbookPropsOptions{Date1904: &yes})
+		}
+		if err := f.SetCellValue("Sheet1", "A1", t); err != nil {
+			res = "ERR"
+			return
+		}
+		raw, _ := f.GetCellValue("Sheet1", "A1", xl.Options{RawCellValue: true})
+		x, err := strconv.ParseFloat(raw, 64)
+		if err != nil {
+			res = "text"
+			return
+		}
+		// the reader cuts a numeric text of more than 15 significant digits to 15 before rendering
+		x15, _ := strconv.ParseFloat(strconv.FormatFloat(x, 'G', 15, 64), 64)
+		bits15 = fmt.Sprintf("%016x", math.Float64bits(x15))
+		df := new(big.Rat).Sub(new(big.Rat).SetFloat64(x15), new(big.Rat).SetFloat64(x))
+		df.Abs(df)
+		tol := new(big.Rat).Mul(new(big.Rat).SetFloat64(x), big.NewRat(5, 1000000000000000))
+		e15 := 0
+		if df.Cmp(tol) <= 0 {
+			e15 = 1
+		}
+		si, _ := f.GetCellStyle("Sheet1", "A1")
+		st, _ := f.GetStyle(si)
+		nf := 0
+		if st != nil {
+			nf = st.NumFmt
+		}
+		shown, _ = f.GetCellValue("Sheet1", "A1")
+		code := "yyyy-mm-dd hh:mm:ss"
+		id, _ := f.NewStyle(&xl.Style{CustomNumFmt: &code})
+		_ = f.SetCellStyle("Sheet1", "A1", "A1", id)
+		iso, _ = f.GetCellValue("Sheet1", "A1")
+		res = fmt.Sprintf("enc=%016x e15=%d fmt=%d toks=%s out=%s iso=%s", math.Float64bits(x), e15, nf, c19toks(c19builtin[nf]), hx(shown), hx(iso))
+	}()
+	ln := r.Op(head+" "+bits15, res)
+	r.Case(head, true)
+	r.Stat("rend")
+	// direct oracle: the ISO rendering is the written wall clock
+	want := fmt.Sprintf("%04d-%02d-%02d %02d:%02d:%02d", y, int(mo), d, h, mi, s)
+	a := c19date{y, int(mo), d}
+	if strings.HasPrefix(res, "enc=") && c19inRange(sys, a) && t.Nanosecond() == 0 && iso != want {
+		r.Fail("rend:iso-differs", fmt.Sprintf("%s written with date1904=%v renders %q under yyyy-mm-dd hh:mm:ss", t.Format(time.RFC3339), sys, iso), ln, head+" -")
+	}
 }
 
 // c19dur: time.Duration cells. The stored text is float32-formatted; the harness measures its distance
@@ -1099,6 +1182,35 @@ func runC19(r *Run, rng *Rng, replay string) {
 				c19cell(r, wb, pre, time.Date(2024, 12, 1, 13, 0, 0, 0, time.UTC), "UTC")
 			}
 		}
+		nR := 4000
+		if thorough {
+			nR = 40000
+		}
+		for i := 0; i < nR; i++ {
+			u := lo + int64(rng.U64()%uint64(hi-lo+1))
+			if rng.Chance(20) {
+				u = lo + int64(rng.Intn(5*365*86400))
+			}
+			z := c19zones[rng.Intn(len(c19zones))]
+			w := time.Unix(u, 0).UTC()
+			day, hh, mm, ss := w.Day(), w.Hour(), w.Minute(), w.Second()
+			switch rng.Intn(5) {
+			case 0:
+				day = 1
+			case 1:
+				hh, mm, ss = 0, 0, 0
+			case 2:
+				hh, mm, ss = 23, 59, 59
+			}
+			c19rend(r, rng.Bool(), time.Date(w.Year(), w.Month(), day, hh, mm, ss, 0, z.loc), z.name)
+		}
+		for _, sysb := range []bool{false, true} {
+			for _, a := range []c19date{{1900, 3, 1}, {1900, 3, 2}, {1904, 1, 1}, {1904, 3, 2}, {1904, 3, 3}, {2000, 2, 29}, {9999, 12, 31}, {2024, 12, 1}} {
+				for _, sec := range []int{0, 1, 43200, 86399} {
+					c19rend(r, sysb, c19at(a, sec, 0, time.UTC), "UTC")
+				}
+			}
+		}
 		nDu := 3000
 		if thorough {
 			nDu = 40000
@@ -1214,6 +1326,11 @@ func c19replay(r *Run, path string) {
 				loc := c19zoneByName(w[11], atoi(w[10]))
 				t := time.Date(atoi(w[3]), time.Month(atoi(w[4])), atoi(w[5]), atoi(w[6]), atoi(w[7]), atoi(w[8]), atoi(w[9]), loc)
 				c19cell(r, w[1], atoi(w[2]), t, w[11])
+			}
+		case "rend":
+			if len(w) >= 10 {
+				loc := c19zoneByName(w[9], atoi(w[8]))
+				c19rend(r, w[1] == "1", time.Date(atoi(w[2]), time.Month(atoi(w[3])), atoi(w[4]), atoi(w[5]), atoi(w[6]), atoi(w[7]), 0, loc), w[9])
 			}
 		case "dur":
 			if len(w) >= 2 {
